@@ -2,6 +2,7 @@ import DarkluaModel.Shared.VisitorSound.HeapU.USteps
 import DarkluaModel.Shared.VisitorSound.HeapU.UCtx
 import DarkluaModel.Shared.VisitorSound.HeapU.USelf
 import DarkluaModel.Shared.VisitorSound.HeapU.UOracle
+import DarkluaModel.Shared.VisitorSound.HeapU.UDemoSub
 import DarkluaModel.Shared.VisitorSoundHeap
 import DarkluaModel.Shared.VisitorSoundHeapV
 /-!
@@ -47,6 +48,10 @@ three partial injections with frontiers, `VR` congruence closure, links, lifting
   `IdGlobal`, `SoundE.dropIdCall` and their links. The final theorems take `hb : NoRefB (watD cx) b` (the program
   neither declares nor assigns an always-watched name), `hok`, `hW0 : cx.top`, `hG`, `hF` — all discharged by
   default for contexts that watch nothing. Worked instance: `Demo.DropAssertU`.
+* **one source, two substitutions** (`HeapU/USub.lean`): leaves whose two sides mention ONE-SIDED names cannot travel
+  through a chain of links (every intermediate program of a chain runs on both sides); `subB m true src` and
+  `subB m false src` are related in one simultaneous derivation (`subB_vr`). Worked instance with an always-watched
+  LOCAL established by a one-sided prelude and used inside closures: `Demo.WatchedLocal` (`HeapU/UDemoSub.lean`).
 * NOT yet: an "original raises" flavour of `upto`.
 -/
 namespace DarkluaModel
